@@ -61,6 +61,34 @@ def distinct_callee(rep, tier):
             'plan': pname, 'law': 'the rows of Q do not depend on how Source is planned (injected, WITH, inlined, grounded); '
                                   'Source is distinct, so each of its rows counts once',
             'how': 'vlib.logica_run.run_pred(program_text, "Q")'})
+  # a callee with @Limit (with or without @OrderBy): its readers see at most K rows under every plan
+  for _ in range(n):
+    vals = r.sample(range(1, 30), r.randint(3, 7))
+    k = r.randint(1, len(vals) - 1)
+    ordered = r.random() < 0.5
+    desc = r.random() < 0.5
+    base = '@Engine("sqlite");\n' + ''.join('Item(%d);\n' % v for v in vals) + 'Sample(x) :- Item(x);\n@Limit(Sample, %d);\n' % k
+    if ordered:
+      base += '@OrderBy(Sample, "col0%s");\n' % (' desc' if desc else '')
+    kind = r.choice(['count', 'rows' if ordered else 'count', 'join'])
+    if kind == 'count':
+      caller, want = 'Q() += 1 :- Sample(x);\n', [(k,)]
+    elif kind == 'rows':
+      caller, want = 'Q(x) :- Sample(x);\n', sorted((v,) for v in sorted(vals, reverse=desc)[:k])
+    else:
+      caller, want = 'Q() += 1 :- Sample(x), Item(y);\n', [(k * len(vals),)]
+    for pname, ann in [('default', ''), ('NoInject', '@NoInject(Sample);\n'), ('With', '@With(Sample);\n'),
+                       ('Ground', '@AttachDatabase("logica_home", ":memory:");\n@Ground(Sample);\n')]:
+      t = base + caller + ann
+      st, a, b = logica_run.run_pred(t, 'Q')
+      runs += 1
+      rows = sorted(tuple(x) for x in b) if st == 'ok' else a
+      if (st != 'ok' or rows != want) and bad < 3:
+        bad += 1
+        rep.violation('limited-callee:%s:%s' % (pname, st if st != 'ok' else 'rows'), {
+            'program_text': t, 'predicate': 'Q', 'expected_rows': want, 'observed': [st, rows if st == 'ok' else str(rows)[:300]],
+            'plan': pname, 'law': 'a predicate limited to K rows gives its readers K rows however it is planned',
+            'how': 'vlib.logica_run.run_pred(program_text, "Q")'})
   rep.coverage['distinct_callee_runs'] = runs
   rep.coverage['evaluations'] = rep.coverage.get('evaluations', 0) + runs
 
